@@ -664,6 +664,8 @@ impl<'b> Decoder<'b> {
 
     /// Get the byte at the current position.
     fn current(&self) -> Result<u8, Error> {
+        #[cfg(minicbor_verif)]
+        crate::verif::step();
         if let Some(b) = self.buf.get(self.pos) {
             return Ok(*b)
         }
@@ -672,6 +674,8 @@ impl<'b> Decoder<'b> {
 
     /// Consume and return the byte at the current position.
     fn read(&mut self) -> Result<u8, Error> {
+        #[cfg(minicbor_verif)]
+        crate::verif::step();
         if let Some(b) = self.buf.get(self.pos) {
             self.pos += 1;
             return Ok(*b)
@@ -681,6 +685,8 @@ impl<'b> Decoder<'b> {
 
     /// Peek to the next byte.
     fn peek(&self) -> Result<u8, Error> {
+        #[cfg(minicbor_verif)]
+        crate::verif::step();
         self.pos.checked_add(1)
             .and_then(|i| self.buf.get(i).copied())
             .ok_or_else(Error::end_of_input)
@@ -688,6 +694,8 @@ impl<'b> Decoder<'b> {
 
     /// Consume and return *n* bytes starting at the current position.
     fn read_slice(&mut self, n: usize) -> Result<&'b [u8], Error> {
+        #[cfg(minicbor_verif)]
+        crate::verif::step();
         if let Some(b) = self.pos.checked_add(n).and_then(|end| self.buf.get(self.pos .. end)) {
             self.pos += n;
             return Ok(b)
